@@ -38,6 +38,8 @@ def units(tier):
         add("D=3 cancel=2 cancel2=0", D=3, cancel=2, cancel2=0)
         add("D=2 cancel=0 eager child", D=2, cancel=0, in_child=True, eager=True)
         add("D=3 cancel=1 toggle-on", D=3, cancel=1, toggle=(2, True))
+    add("D=1 deadline initially inf or finite, re-armed (cancelled by its deadline)", D=1, deadlines=(0,), redeadline=(0,), dl_may_be_inf=True, shields=(False,))
+    add("D=2 outer deadline, inner shield sym", D=2, deadlines=(0,), shields="sym")
     for env in (("group",), ("outer",)):
         us.append({"name": "tg shielded-spawn env=%s" % env[0], "fn": tg_scn.scn, "budget_s": B,
                    "params": {"props": [PROP], "children": [], "body": "shielded-spawn", "env": env, "T": 2, "J": 1}})
